@@ -44,9 +44,9 @@ fn main() {
     }));
     let r = panic::catch_unwind(|| f());
     let _ = panic::take_hook();
-    let (failed, covered, exhausted, used) = native::ST.with(|s| {
+    let (failed, covered, exhausted, used, notes) = native::ST.with(|s| {
         let s = s.borrow();
-        (s.failed.clone(), s.covered.clone(), s.exhausted, s.pos)
+        (s.failed.clone(), s.covered.clone(), s.exhausted, s.pos, s.notes.clone())
     });
     let mut result = "HOLDS";
     let mut panic_msg = String::new();
@@ -77,7 +77,7 @@ fn main() {
         result = "HARNESS-PANIC";
     }
     println!(
-        "REPLAY harness={name} profile={profile} result={result} failed={failed:?} panic={panic_msg:?} at={loc:?} covered={} draws_used={used} exhausted={exhausted}",
+        "REPLAY harness={name} profile={profile} result={result} failed={failed:?} panic={panic_msg:?} at={loc:?} covered={} draws_used={used} exhausted={exhausted} notes={notes:?}",
         covered.len()
     );
     std::process::exit(match result {
